@@ -83,6 +83,13 @@ func newWorld(rc *corepkg, o worldOpts) *World {
 		return nil
 	}
 	cli := e.W.Net.Dial(l.ClientURL)
+	// ids are unique across stores, regions and peers in a real cluster (one allocator): move PD's allocator past
+	// the small store ids used here before it hands out peer ids
+	for i := 0; i < 64; i++ {
+		ctx, cancel := e1.Ctx(5 * time.Second)
+		cli.AllocID(ctx, &pdpb.AllocIDRequest{Header: &pdpb.RequestHeader{ClusterId: e.ClusterID}})
+		cancel()
+	}
 	for i := 1; i <= o.stores; i++ {
 		var labels map[string]string
 		if o.labels != nil {
@@ -101,12 +108,12 @@ func newWorld(rc *corepkg, o worldOpts) *World {
 		}
 	}
 	// the first region as bootstrapped (id 2, peer 3 on store 1), then replicated to `replicas` stores
-	r := &simtikv.Region{ID: 2, Start: 0, End: -1, Ver: 1, ConfVer: 1, Term: 1, Peers: []simtikv.Peer{{ID: 3, StoreID: 1}}, Leader: 3, SizeMB: 96, Keys: 100000}
+	r := &simtikv.Region{ID: 1001, Start: 0, End: -1, Ver: 1, ConfVer: 1, Term: 1, Peers: []simtikv.Peer{{ID: 1002, StoreID: 1}}, Leader: 1002, SizeMB: 96, Keys: 100000}
 	for i := 2; i <= o.replicas && i <= o.stores; i++ {
 		r.Peers = append(r.Peers, simtikv.Peer{ID: w.M.AllocID(), StoreID: uint64(i)})
 		r.ConfVer++
 	}
-	w.M.Regions[2] = r
+	w.M.Regions[1001] = r
 	return w
 }
 
